@@ -445,7 +445,7 @@ func (d *DB) CanonicalDump() (string, error) {
 		{"pn_history_transaction", `SELECT hex(entry_hash), tx_index, action_type, hex(from_address), from_asset, from_amount, to_asset, to_amount, outputs FROM pn_history_transaction ORDER BY entry_hash, tx_index`},
 		{"pn_history_lookup", `SELECT hex(entry_hash), tx_index, hex(address) FROM pn_history_lookup ORDER BY entry_hash, tx_index, address`},
 		{"pn_metadata", `SELECT name, value FROM pn_metadata ORDER BY name`},
-		{"pn_sync_version", `SELECT height, version FROM pn_sync_version ORDER BY height`},
+		{"pn_sync_version", `SELECT height, version FROM pn_sync_version WHERE version >= 0 ORDER BY height`}, // legacy back-fill markers (version -1, written at start-up by CheckHardForks) are start-up bookkeeping, see C19
 	}
 	for _, x := range qs {
 		sb.WriteString("## " + x.name + "\n")
